@@ -277,3 +277,19 @@ int MPI_Get_count(const MPI_Status *status, MPI_Datatype datatype, int *count)
     *count = (g_last_got >= 0) ? (int)g_last_got : g_full_reads ? (int)g_last_io_bytes : (g_get_count >= 0) ? g_get_count : c;
     return MPI_SUCCESS;
 }
+
+/* ------------------------------------------------------------------ pack / unpack
+ * Only the bookkeeping is modelled: the packed bytes are arbitrary and the unpacked user buffer is
+ * not touched (the extent of a derived datatype is unknown to the model), so nothing that depends
+ * on derived-type semantics is ever claimed. */
+int MPI_Pack(const void *inbuf, int incount, MPI_Datatype datatype, void *outbuf, int outsize, int *position, MPI_Comm comm)
+{
+    if (outsize > 0) __CPROVER_havoc_slice(outbuf, outsize);
+    *position = outsize;
+    return MPI_SUCCESS;
+}
+int MPI_Unpack(const void *inbuf, int insize, int *position, void *outbuf, int outcount, MPI_Datatype datatype, MPI_Comm comm)
+{
+    *position = insize;
+    return MPI_SUCCESS;
+}
